@@ -98,6 +98,9 @@ def cases(tier, mode='func'):
             out += func_cases(tier, prefix='c15.%s' % fs, extra=d, nmax=3 if q else 4, ops=('PUT', 'REMOVE', 'GET', 'MIN', 'MAX', 'CLEAR'))
             out += [tree_case('c15.ts.%s' % fs, shapes(0)[0], 'CTOR', dict(d, VF_TS=None))]
             out += [tree_case('c15.%s' % fs, sh, op, d) for sh in shapes(2 if q else 3) for op in ('WALK', 'NEAREST')]
+            # a failed insertion below a 4-node that was split on the way down (needs >= 5 nodes): contents, counters AND shape afterwards
+            if fs in ('f0', 'f1', 'f2'):
+                out += [tree_case('c15.%s' % fs, sh, 'PUT', d) for sh in shapes(6 if q else 7) if sh['n'] >= (4 if q else 5)]
         return out
     raise ValueError(mode)
 
@@ -118,7 +121,7 @@ def shape_cases(tier):
                     e['VF_LIBCHK'] = None
                 out.append(tree_case('c02', sh, op, e, sfx=sfx))
         out.append(tree_case('c02', sh, 'GET', {'VF_CMP': 1, 'VF_SHAPECHK': None}, sfx='.ucmp'))
-        if sh['n'] <= (4 if q else 6):
+        if sh['n'] <= (6 if q else 7):   # 5 nodes: smallest tree in which a failed insertion below a split 4-node needs the fix-up rotations on the way up
             for fd, fs in FAILS[:3]:
                 out.append(tree_case('c02', sh, 'PUT', dict(fd, VF_ALLOCFAIL=None, VF_SHAPECHK=None, VF_SHAPE_OWNER_C02=None), sfx='.' + fs))
     for sh in shapes(nstep + 1):
